@@ -21,8 +21,12 @@ import (
 )
 
 func compileIfStatement(ctx context.Context[parser.IIfStatementContext]) (diverged bool, err error) {
-	if _, err = expression.Compile(context.Child(ctx, ctx.AST.Expression())); err != nil {
+	condType, err := expression.Compile(context.Child(ctx, ctx.AST.Expression()))
+	if err != nil {
 		return false, errors.Wrap(err, "failed to compile if condition")
+	}
+	if wasm.ConvertType(condType) != wasm.I32 {
+		expression.EmitTruthiness(ctx, condType)
 	}
 
 	var (
@@ -47,9 +51,12 @@ func compileIfStatement(ctx context.Context[parser.IIfStatementContext]) (diverg
 		elseIfCtx := innerCtx
 		for i, elseIfClause := range ctx.AST.AllElseIfClause() {
 			ctx.Writer.WriteElse()
-			_, err := expression.Compile(context.Child(elseIfCtx, elseIfClause.Expression()))
+			elseIfType, err := expression.Compile(context.Child(elseIfCtx, elseIfClause.Expression()))
 			if err != nil {
 				return false, errors.Wrapf(err, "failed to compile else-if[%d] condition", i)
+			}
+			if wasm.ConvertType(elseIfType) != wasm.I32 {
+				expression.EmitTruthiness(ctx, elseIfType)
 			}
 			ctx.Writer.WriteIf(wasm.BlockTypeEmpty)
 			elseIfCtx = elseIfCtx.EnterBlock()
